@@ -7,6 +7,6 @@ CONSTANTS
   Mode = "concurrent"
   Dirs = {"main"}
   WatchDirs = "rearm"
-  Kinds = {"write", "remove", "rename"}
+  Kinds = {"write", "remove", "rename", "restore"}
 INVARIANTS ExportSchedules
 CHECK_DEADLOCK FALSE
